@@ -116,8 +116,8 @@ end
 /-- C08: `_gtm` hands the stand-alone integrator the positive part of the table, and the automatic high-mass extension starts one
     grid step above the last tabulated mass and runs to 10^18 — so values at a mass do not depend on where the user's grid stops -/
 theorem gtm_wiring :
-    Gen.Flow.wiring.lookup "MassFunction._gtm/hmf_integral_gtm" = some Spec.Wiring.gtmIntegrator ∧
-    Gen.Flow.wiring.lookup "MassFunction._gtm/<derived object>.update" = some Spec.Wiring.gtmExtension := by decide
+    Gen.Flow.wiring.lookup "MassFunction.<helper>/hmf_integral_gtm" = some Spec.Wiring.gtmIntegrator ∧
+    Gen.Flow.wiring.lookup "MassFunction.<helper>/<derived object>.update" = some Spec.Wiring.gtmExtension := by decide
 
 /-- thresholds of the cumulative integrals (10^16.5 tail limit, positivity mask) are the documented ones; no new special case -/
 theorem guards_cumulative : Gen.Guards.massFunction = Spec.Guards.massFunction ∧ Gen.Guards.integrate = Spec.Guards.integrate := by decide
